@@ -109,6 +109,8 @@ def init_strategy(kind):
         st.tuples(st.just("copyof"), st.lists(st.tuples(eid_literal, mem).map(list), max_size=3, unique_by=lambda t: repr(t[0]))).map(list),
         # a network that went through a tuple-renaming merge and then re-used the freed IDs for new duplicates
         st.tuples(st.just("after-merge"), mem, mem).map(list),
+        # a fresh network whose only edge was added singly under a falsy explicit ID (0, 0.0, numpy 0): the counter must have moved
+        st.tuples(st.just("first-explicit"), mem, st.sampled_from(["int", "int", "float", "npint"])).map(list),
     )
 
 
@@ -130,6 +132,10 @@ def make_init(init):
         return xgi.Hypergraph(I)
     if t == "copyof":
         return xgi.Hypergraph(xgi.Hypergraph({k: list(m) for k, m in init[1]}))
+    if t == "first-explicit":
+        H = xgi.Hypergraph()
+        H.add_edge(list(init[1]), idx=nets.ZERO[init[2]])
+        return H
     if t == "after-merge":
         H = xgi.Hypergraph()
         H.add_edge(list(init[1]), idx=0)
@@ -484,6 +490,8 @@ class Model:
                 if len(ids) > 1:
                     dups += ids
                     # "sorted duplicate edge IDs": mixed-type IDs make sorted() raise TypeError
+                    if rule == "first":
+                        min(ids)  # raises for mixed-type IDs before any automatic ID is asked for (the model is parametric in those)
                     if rename == "first":
                         nid = sorted(ids)[0]
                     elif rename == "tuple":
